@@ -12,6 +12,7 @@ import (
 	"go/token"
 	"go/types"
 	"sort"
+	"strings"
 
 	"golang.org/x/tools/go/callgraph"
 	"golang.org/x/tools/go/callgraph/cha"
@@ -204,7 +205,19 @@ func baseAlloc(v ssa.Value) *ssa.Alloc {
 // the type keeps for itself).
 func (rc *rootCtx) privateField(fa *ssa.FieldAddr) bool {
 	fv := fieldVar(fa)
+	// synchronisation state (mutexes, atomics, Once, Pool) is not data
+	if n, ok := types.Unalias(fv.Type()).(*types.Named); ok && n.Obj().Pkg() != nil {
+		if p := n.Obj().Pkg().Path(); p == "sync" || p == "sync/atomic" {
+			return true
+		}
+	}
 	if fv.Exported() || fv.Pkg() == nil || isModPkg(fv.Pkg()) {
+		return false
+	}
+	// only the parsed-object types keep such caches (zcrypto's memoised
+	// GetParsedDNSNames / GetParsedSubjectCommonName); for any other library
+	// type the unexported fields ARE the data
+	if !strings.HasPrefix(fv.Pkg().Path(), "github.com/zmap/zcrypto/x509") {
 		return false
 	}
 	return rc.f.Pkg != nil && rc.f.Pkg.Pkg == fv.Pkg()
